@@ -30,7 +30,7 @@ EXTENDS Naturals, Integers, Sequences, FiniteSets, TLC, Json, IOUtils
 Mode  == IOEnv.MODE
 Progs == JsonDeserialize(IOEnv.PROGS)      \* sequence of [params, body, N]
 MaxD  == atoi(IOEnv.MAXD)
-Cases == IF Mode = "trace" THEN JsonDeserialize(IOEnv.CASES) ELSE <<>>
+Cases == IF Mode \in {"trace", "explain"} THEN JsonDeserialize(IOEnv.CASES) ELSE <<>>
 
 \* ---- machine state threaded through evaluation -------------------------------------------------
 \* [st: store, i: index of next answer, ev: events, status: "ok"|"more"|"exc"|"ret"|"brk"|"cnt", val, need]
